@@ -292,6 +292,10 @@ def rate_campaign(sess, rng, count, kinds=KINDS, max_teams=8, max_players=8, sim
         okw, _style = encode_order(rng, weak_order(rng, len(shape)))
         if warmed and rng.random() < 0.4:
             okw = {}        # after a game with an explicit outcome, one in the order given
+        if max_teams >= 8 and rng.random() < 0.05:     # the kappa floor under the default gamma
+            fv, fr = floor_game(rng, beta)
+            teams = make_teams(mh, fv, rng)
+            okw = {"ranks": fr} if rng.random() < 0.7 else {"scores": [-x for x in fr]}
         kw.update(okw)
         sess.rate(mh, teams, **kw)
 
@@ -447,6 +451,29 @@ def random_vals(rng, shape, beta, tau_pos=False):
     return [[(pick_mu(rng, beta), pick_sigma(rng, beta, tau_pos)) for _ in range(sz)] for sz in shape]
 
 
+def floor_game(rng, beta, mates=True):
+    """A game in which the kappa floor binds under the DEFAULT gamma for PL and the full-pairing models: a newcomer with sigma
+    9-10 beta (alone, or beside a settled team mate) finishing last of 7-8 teams of settled players (sigma 0.01-0.3 beta).
+    Returns (vals, ranks).  Random games do not get there (0 in 20 000); gamma = big does, but changes the step itself."""
+    n = rng.choice([7, 8, 8])
+    mu0 = pick_mu(rng, beta) * 0.5
+    spread = rng.choice([0.0, 0.0, 0.3, 1.0]) * beta
+    # the newcomer is rated like the others, or is a favourite far above them (its mean then moves by more than 3 of its sigmas)
+    lead = rng.choice([0.0, 0.0, 5.0, 15.0, 38.0]) * beta
+    if lead > 0:
+        mu0 = -19.0 * beta + spread
+    vals = [[(mu0 + spread * rng.uniform(-1, 1), beta * rng.choice([0.01, 0.05, 0.1, 0.25, 0.3]))] for _ in range(n - 1)]
+    new = [(min(mu0 + lead + spread * rng.uniform(-1, 1), 19.9 * beta), beta * rng.uniform(9.0, 10.0))]
+    if mates and rng.random() < 0.4:
+        new.insert(rng.randrange(2), (mu0, beta * rng.choice([0.1, 0.2, 0.4])))
+    vals.append(new)
+    ranks = list(range(n))
+    if rng.random() < 0.3:       # a tie among the settled teams
+        k = rng.randrange(n - 2)
+        ranks[k + 1] = ranks[k]
+    return vals, ranks
+
+
 DUP_IDS = [False]   # when set, every rating built by make_teams carries the same id (as deep copies do)
 
 
@@ -460,13 +487,26 @@ def make_teams(mh, vals, rng=None, names=True):
     return teams
 
 
+_MAKE_COUNT = [0]
+
+
 def _make_teams(mh, vals, rng=None, names=True):
+    """How the players of a game come to exist is part of the input: most are made by model.rating(mu, sigma, name); every
+    seventh game is restored by create_rating from stored [mu, sigma] rows - ONE row object per distinct pair of values, as a
+    program that keeps its rows in a table would pass them (value-identical players then come from the same list object)."""
+    _MAKE_COUNT[0] += 1
+    restored = _MAKE_COUNT[0] % 7 == 0
+    rows = {}
     teams = []
     for tv in vals:
         team = []
         for (mu, sg) in tv:
             nm = rng.choice(NAMES) if (rng is not None and names) else None
-            team.append(mh.m.rating(mu, sg, nm) if nm is not None else mh.m.rating(mu, sg))
+            if restored and isinstance(mu, (int, float)) and isinstance(sg, (int, float)) and not isinstance(mu, bool) and not isinstance(sg, bool):
+                row = rows.setdefault((repr(mu), repr(sg)), [mu, sg])
+                team.append(mh.m.create_rating(row, nm) if nm is not None else mh.m.create_rating(row))
+            else:
+                team.append(mh.m.rating(mu, sg, nm) if nm is not None else mh.m.rating(mu, sg))
         teams.append(team)
     return teams
 
@@ -629,6 +669,63 @@ def perm_groups(sess, rng, count, prop, ops=("rate",), kinds=KINDS, max_teams=6,
         DUP_IDS[0] = False
 
 
+def construct_campaign(sess, rng, count, kinds=KINDS):
+    """Model construction as an operation (OpenSkill!NewModel): every subset of the seven arguments - ints, floats, flags,
+    named callbacks - each attribute alone, everything omitted; then the model is used (rate, the predictions, rating()
+    with and without values), so that an attribute that is stored but not the one read later shows as well."""
+    attrs = ["mu", "sigma", "beta", "kappa", "tau", "limit_sigma", "gamma"]
+    for i in range(count):
+        kind = kinds[i % len(kinds)]
+        r = rng.random()
+        if r < 0.15:
+            chosen = []
+        elif r < 0.45:
+            chosen = [rng.choice(attrs)]
+        elif r < 0.6:
+            chosen = list(attrs)
+        else:
+            chosen = [a for a in attrs if rng.random() < 0.5]
+        beta = BETA0
+        kw, g = {}, "default"
+        if "beta" in chosen:
+            beta = rng.choice([1, 2, 5, 2.5, 0.5, BETA0, 40, 12.5])
+            kw["beta"] = beta
+        for a in chosen:
+            if a == "mu":
+                kw["mu"] = rng.choice([0, 10, 30, -4, 25.0, 1500, 7.25, 100])
+            elif a == "sigma":
+                kw["sigma"] = rng.choice([1, 2, 3, 0.5, 8.0, 25.0 / 3.0, 350])
+            elif a == "kappa":
+                kmax = 1e-2 if kind not in ("TMF", "TMP") else min(1e-2, 1e-2 * math.sqrt(2.0) * beta)
+                kw["kappa"] = min(kmax, rng.choice([1e-8, 1e-6, 1e-5, 1e-3, 1e-2, 0.005]))
+            elif a == "tau":
+                kw["tau"] = rng.choice([0, 0.0, 1, 2, 0.25, beta / 50.0, beta])
+            elif a == "limit_sigma":
+                kw["limit_sigma"] = rng.random() < 0.6
+            elif a == "gamma":
+                g = rng.choice(["one", "zero", "big", "probe"])
+        if kind in ("TMF", "TMP") and "kappa" not in kw and 1e-4 > 1e-2 * math.sqrt(2.0) * beta:
+            kw["kappa"] = 1e-2 * beta
+        sess.reset()
+        mh = sess.model(kind, gamma=g, **kw)
+        tau = float(kw.get("tau", 25.0 / 300.0))
+        shape = pick_shape(rng, 4, 3)
+        vals = random_vals(rng, shape, beta, tau > 0)
+        okw, _ = encode_order(rng, weak_order(rng, len(shape)))
+        sess.rate(mh, make_teams(mh, vals, rng), **okw)
+        pv = random_vals(rng, pick_shape(rng, 4, 3), beta, False)
+        for op in ("win", "draw", "rank"):
+            sess.predict(op, mh, make_teams(mh, pv))
+        # the model's mu / sigma are the defaults of rating(): nothing given, one given, zero and negative values given
+        sess.new_rating(mh)
+        sess.new_rating(mh, mu=rng.choice([0, -3, 41.5]))
+        sess.new_rating(mh, sigma=rng.choice([0, 1.5, 7]))
+        # two newcomers built from the defaults play a game
+        a, b = sess.new_rating(mh, name="x"), sess.new_rating(mh, name="y")
+        if a is not None and b is not None and abs(float(a.mu)) <= 20 * beta and 1e-4 * beta <= float(a.sigma) <= 10 * beta:
+            sess.rate(mh, [[a], [b]])
+
+
 def effopts_groups(sess, rng, count, kinds=KINDS):
     """C15: per-call tau / limit_sigma against model-level settings."""
     for _ in range(count):
@@ -643,22 +740,29 @@ def effopts_groups(sess, rng, count, kinds=KINDS):
         # priors where the clamp matters: large tau relative to sigma makes posterior sigma exceed the prior
         vals = random_vals(rng, shape, beta, float(t) > 0 and other_tau > 0)
         okw, _ = encode_order(rng, weak_order(rng, len(shape)))
+        # the other parts of the step under the same options: a callback (floor active under `big`), the floor under the default gamma
+        g = rng.choice(["default", "default", "big", "probe", "one"])
+        if rng.random() < 0.15:
+            vals, fr = floor_game(rng, beta)
+            okw = {"ranks": fr}
+            if float(t) == 0 or other_tau == 0:
+                t, other_tau = beta / 50.0, beta
         sess.reset()
         gid = GID.new("C15")
-        m_model = sess.model(kind, tau=float(t), limit_sigma=b)          # model-level setting, no argument
+        m_model = sess.model(kind, gamma=g, tau=float(t), limit_sigma=b)          # model-level setting, no argument
         sess.rate(m_model, make_teams(m_model, vals), group=gid, role="base", **okw)
-        m_call = sess.model(kind, tau=other_tau, limit_sigma=other_lim)  # per-call arguments override
+        m_call = sess.model(kind, gamma=g, tau=other_tau, limit_sigma=other_lim)  # per-call arguments override
         sess.rate(m_call, make_teams(m_call, vals), tau=t, limit_sigma=b, group=gid, role="effopts", **okw)
-        m_tau = sess.model(kind, tau=other_tau, limit_sigma=b)           # only tau per call
+        m_tau = sess.model(kind, gamma=g, tau=other_tau, limit_sigma=b)           # only tau per call
         sess.rate(m_tau, make_teams(m_tau, vals), tau=t, group=gid, role="effopts", **okw)
-        m_lim = sess.model(kind, tau=float(t), limit_sigma=other_lim)    # only limit_sigma per call
+        m_lim = sess.model(kind, gamma=g, tau=float(t), limit_sigma=other_lim)    # only limit_sigma per call
         sess.rate(m_lim, make_teams(m_lim, vals), limit_sigma=b, group=gid, role="effopts", **okw)
-        m_pos = sess.model(kind, tau=other_tau, limit_sigma=other_lim)   # options passed by position, in the documented order
+        m_pos = sess.model(kind, gamma=g, tau=other_tau, limit_sigma=other_lim)   # options passed by position, in the documented order
         pk = dict(okw)
         pk.setdefault("ranks", None)
         pk.setdefault("scores", None)
         sess.rate(m_pos, make_teams(m_pos, vals), tau=t, limit_sigma=b, group=gid, role="effopts", positional=True, **pk)
-        m_none = sess.model(kind, tau=float(t), limit_sigma=b)           # explicit None = omitted
+        m_none = sess.model(kind, gamma=g, tau=float(t), limit_sigma=b)           # explicit None = omitted
         sess.rate(m_none, make_teams(m_none, vals), tau=None, limit_sigma=None, group=gid, role="effopts", **okw)
 
 
@@ -993,6 +1097,31 @@ def object_campaign(sess, rng, count, kinds=KINDS):
                 sess.create_rating(mh, [a, b])
             else:
                 sess.create_rating(mh, [a, b], name=nm)
+        # several players restored from ONE list object (a row kept by the caller), which the caller then goes on using
+        row = [rng.choice([25.0, 20, 31.5]), rng.choice([8.0, 2, 25.0 / 3.0])]
+        p1 = sess.create_rating(mh, row)
+        p2 = sess.create_rating(mh, row, name="second")
+        was = [sess.enc(q_) for q_ in (p1, p2)]
+        row[0], row[1] = row[0] + 5.0, row[1] * 0.5               # the caller's list is the caller's
+        p3 = sess.create_rating(mh, row)
+        if None not in (p1, p2, p3):
+            for q_, w_ in zip((p1, p2), was):
+                sess.holds(q_, w_)                                 # what each object holds now against what it was given
+            sess.rate(mh, [[p1], [p2], [p3]], ranks=[rng.randint(0, 2) for _r in range(3)])
+            sess.predict("win", mh, [[p1, p2], [p3]])
+        # ids do not come from anything the program controls: the global random generator re-seeded between constructions
+        import random as _random
+        st = _random.getstate()
+        try:
+            for _r in range(3):
+                _random.seed(1234)
+                sess.new_rating(mh, name="season")
+                _random.seed(1234)
+                sess.create_rating(mh, [25.0, 8.0])
+            _random.seed(1234)
+            sess.deepcopy([mh.m.rating(1.0, 2.0)])
+        finally:
+            _random.setstate(st)
         # pool of ratings with many equal ordinals
         pool = []
         for _p in range(6):
@@ -1007,6 +1136,14 @@ def object_campaign(sess, rng, count, kinds=KINDS):
             a = rng.choice(pool)
             b = rng.choice(pool) if rng.random() < 0.7 else rng.choice(foreign)
             sess.compare(rng.choice(["lt", "le", "gt", "ge", "eq", "ne"]), a, b)
+        # operands that are not ratings but are made of the rating's own data: the forms a rating is stored or shown in
+        a = rng.choice(pool)
+        own_forms = [[a.mu, a.sigma], (a.mu, a.sigma), [a.mu, a.sigma, a.name], {"mu": a.mu, "sigma": a.sigma}, a.mu, a.sigma,
+                     a.ordinal(), a.id, a.name, repr(a), str(a), [a], (a,), {a.mu, a.sigma}, float(a.mu) + 0.0, int(a.mu), True]
+        for b in own_forms:
+            sess.compare(rng.choice(["eq", "ne"]), a, b)
+        for b in rng.sample(own_forms, 4):
+            sess.compare(rng.choice(["lt", "le", "gt", "ge"]), a, b)
         for a in rng.sample(pool, 3):
             z = rng.choice([None, 3, 3.0, 0, 1, 2.5, -1, 10])
             if z is None:
@@ -1162,6 +1299,10 @@ def bad_values(mh, foreign_mh, own):
         ("foreign", foreign_mh.m.rating(20.0, 5.0)), ("own_rating", own), ("list_of_rating", [mh.m.rating(21.0, 4.0)]),
         ("true", True), ("neg", -2), ("zero_f", -0.0),
         ("numstr", "2"), ("numstr_f", "7.5"), ("bytes", b"4"),
+        # text that means something to a formatter, a parser or a path: an error message built from the value must not change the error
+        ("fmt_field", "{0}"), ("fmt_name", "{rank}"), ("fmt_empty", "{}"), ("fmt_percent", "%s %(x)d"), ("fmt_brace", "a{b"),
+        ("empty_str", ""), ("nan_str", "nan"), ("newline_str", "x\ny"), ("nul_str", "\x00"), ("unicode_str", "\u00e9\u4e2d\U0001F600"),
+        ("long_str", "r" * 5000),
     ]
 
 
@@ -1239,7 +1380,7 @@ def malformed_campaign(sess, rng, count, kinds=KINDS, ops=("rate", "win", "draw"
                         pass  # omitted selector: the specification treats it as not given
                     if path == () and name in ("str", "tuple", "dict", "set", "int", "float", "true", "obj", "foreign", "own_rating", "neg"):
                         pass  # truthy non-lists: malformed
-                    if path == () and name == "zero_f":
+                    if path == () and name in ("zero_f", "empty_str"):
                         continue  # falsy non-list selectors are not specified (DESIGN 6/C13)
                     s2 = _subst(list(ranks0), path, val)
                     sess.rate(mh, teams, **{sel: s2})
@@ -1538,11 +1679,28 @@ def league(sess, rng, kind, nplayers, games, predictions=True, twin=False, prop=
                     sess.predict(op, mh, rebuilt(), group=gid, role="same")
                 else:
                     sess.predict(op, mh, teams)
+        if nplayers >= 8 and rng.random() < 0.08:
+            # a newcomer (sigma 9-10 beta) loses to seven settled players: the kappa floor binds under the default gamma
+            # for PL and full pairing; the caller's own assignments prepare the line-up (recorded as `assign`)
+            idx = rng.sample(range(nplayers), 8)
+            mu0 = live[idx[0]].mu
+            for i in idx[:7]:
+                sess.assign(live[i], mu0, beta * rng.choice([0.01, 0.05, 0.2]))
+            sess.assign(live[idx[7]], mu0, beta * rng.uniform(9.0, 10.0))
+            teams = [[live[i]] for i in idx]
+            kw = {k: v for k, v in kw.items() if k in ("tau", "limit_sigma")}
+            kw["ranks"] = list(range(8))
         if twin:
             gid = GID.new(prop, "league")
             rb = rebuilt()
             sess.rate(mh, rb, group=gid, role="base", **kw)      # rebuilt first: the live objects change in place
             sess.rate(mh, teams, group=gid, role="same", **kw)
+            if predictions and rng.random() < 0.5:
+                # the objects just updated in place against players rebuilt from what they now hold
+                gid = GID.new(prop, "league")
+                op = rng.choice(["win", "draw", "rank"])
+                sess.predict(op, mh, rebuilt(), group=gid, role="base")
+                sess.predict(op, mh, teams, group=gid, role="same")
         else:
             sess.rate(mh, teams, **kw)
             if predictions and rng.random() < 0.5:
